@@ -1,12 +1,713 @@
-//! C07 — (stub: no ops yet)
+//! C07 — decoys mirror their targets one-to-one and never collide with a target
+//!
+//!   db7 <tag:hex> <generate_decoys> <opt mc> <opt min_len> <opt max_len> <opt cleave:hex> <opt restrict-byte>
+//!       <opt c_terminal> <opt semi> <max_variable_mods> <f32 lo> <f32 hi>
+//!       <nvar> {<key:hex> <nmass> <f32>*} <nstatic> {<key:hex> <f32>} <fasta text:hex>
+//!        -> panic | ok <n> {<entry> <reported:hex>}*n            (entries sorted by their text)
+//!           `Builder::make_parameters`, `Fasta::parse(text, tag, generate_decoys)`, `Parameters::build`;
+//!           the entries are `IndexedDatabase.peptides`; `reported` is
+//!           `peptide.proteins(&db.decoy_tag, db.generate_decoys)`
+//!   rev7 <tag:hex> <generate_decoys> <entry>
+//!        -> panic | ok <entry of p.reverse()> <p.reverse().reverse() == p> <label p> <label rev>
+//!              <p.proteins(tag, gen):hex> <rev.proteins(tag, gen):hex>
+//!           a `Peptide` built field by field (all fields are public), then `Peptide::reverse`
+//!   <entry> = <seq:hex> <decoy> <missed_cleavages> <f32 mono> <0|1 f32 nterm> <nmods> <f32>* <0|1 f32 cterm>
+//!             <nprot> <name:hex>*
 use super::Info;
-use crate::proto::{Case, Rng, Tier, Toks};
+use crate::proto::{Case, Out, Rng, Tier, Toks};
+use sage_core::database::{Builder, EnzymeBuilder};
+use sage_core::enzyme::Position;
+use sage_core::fasta::Fasta;
+use sage_core::peptide::Peptide;
+use std::sync::Arc;
 
-pub const OPS: &[&str] = &[];
-pub const INFO: Info = Info { rule: "", serial: false };
+pub const OPS: &[&str] = &["db7", "rev7"];
+pub const INFO: Info = Info {
+    rule: "db7: FASTA files of 1..6 (thorough ..12) proteins assembled from a pool of short peptides over \
+           {A,G,S,M,C,I,L,P,D} closed by K/R, so that peptides are shared between proteins and between protein \
+           positions (N-terminal / internal / C-terminal / whole protein); planted: palindromic peptides (middle \
+           part reads the same backwards), peptides of length 1..3 (with min_len 1..3), mirror pairs X / mirror(X) \
+           that are both targets (each one's decoy is the other target: both decoys must be dropped), I/L-swapped \
+           pairs (equal mass, different sequence), a peptide whose mirror occurs only as a missed-cleavage or \
+           semi-enzymatic product; enzymes: trypsin KR!P, KR, K, N-terminal D, '$' (whole protein), non-specific, \
+           missed cleavages 0..2, semi-enzymatic, min_len 1..5, max_len 4..30; 0..3 variable modifications \
+           (residues of the pool, ^ $ [ ] with and without residue, up to two masses per key) with \
+           max_variable_mods 1..3 so that mirrored modification vectors are visible, 0..3 NON-overlapping static \
+           modifications, mass window wide or cutting the list; both settings of generate_decoys, in both of them \
+           tagged records (tag as prefix; sometimes infix; tags rev_, DECOY_, XX) whose sequences are the mirror \
+           image of a target protein, a copy of a target protein, a mixture of shared and own peptides; duplicate \
+           accessions; different tags. Larger databases (thorough: up to 60 proteins) exercise the quick-sort \
+           regime of par_sort_unstable_by. rev7: peptides of length 0..12 built field by field with random \
+           non-zero modification slots, termini, flags, 0..3 proteins; every length 0..8 with a fully distinct \
+           modification vector. NOT generated (outside the statement, FIXES.md): FASTA text on which \
+           Fasta::parse panics (bare '>' header followed by sequence, sequence before the first header) and inputs \
+           with an empty digest list (Parameters::build panics in group_digests) - the generator checks with the \
+           real digest that at least one digest exists; overlapping static modifications (HashMap order); \
+           modification vectors shorter than the sequence (rev7). Non-trivial: db7 = the database holds at least \
+           one decoy and one target; rev7 = length >= 4 (something moves). Distinct by request line.",
+    serial: false,
+};
 
-pub fn gen(_rng: &mut Rng, _tier: Tier, _emit: &mut dyn FnMut(Case)) {}
+type VarMods = Vec<(String, Vec<f32>)>;
+type StaticMods = Vec<(String, f32)>;
 
-pub fn exec(_op: &str, _t: &mut Toks) -> Option<String> {
-    None
+#[derive(Clone)]
+struct Enz {
+    mc: Option<u8>,
+    min_len: Option<usize>,
+    max_len: Option<usize>,
+    cleave: Option<String>,
+    restrict: Option<u8>,
+    c_terminal: Option<bool>,
+    semi: Option<bool>,
+}
+
+#[derive(Clone)]
+struct Req {
+    tag: String,
+    gen: bool,
+    enz: Enz,
+    max: usize,
+    lo: f32,
+    hi: f32,
+    vars: VarMods,
+    statics: StaticMods,
+    text: String,
+}
+
+fn write_req(r: &Req) -> String {
+    let mut o = Out::new();
+    o.raw("db7").s(&r.tag).b(r.gen);
+    let e = &r.enz;
+    match e.mc {
+        None => o.n(0),
+        Some(x) => o.n(1).n(x),
+    };
+    match e.min_len {
+        None => o.n(0),
+        Some(x) => o.n(1).n(x),
+    };
+    match e.max_len {
+        None => o.n(0),
+        Some(x) => o.n(1).n(x),
+    };
+    match &e.cleave {
+        None => o.n(0),
+        Some(x) => o.n(1).s(x),
+    };
+    match e.restrict {
+        None => o.n(0),
+        Some(x) => o.n(1).n(x),
+    };
+    match e.c_terminal {
+        None => o.n(0),
+        Some(x) => o.n(1).b(x),
+    };
+    match e.semi {
+        None => o.n(0),
+        Some(x) => o.n(1).b(x),
+    };
+    o.n(r.max).f32(r.lo).f32(r.hi);
+    o.n(r.vars.len());
+    for (k, ms) in &r.vars {
+        o.s(k).n(ms.len());
+        for m in ms {
+            o.f32(*m);
+        }
+    }
+    o.n(r.statics.len());
+    for (k, m) in &r.statics {
+        o.s(k).f32(*m);
+    }
+    o.s(&r.text);
+    o.finish()
+}
+
+fn read_req(t: &mut Toks) -> Option<Req> {
+    let tag = t.string()?;
+    let gen = t.bool()?;
+    let mc = t.opt(|t| t.usize())?.map(|x| x as u8);
+    let min_len = t.opt(|t| t.usize())?;
+    let max_len = t.opt(|t| t.usize())?;
+    let cleave = t.opt(|t| t.string())?;
+    let restrict = t.opt(|t| t.usize())?.map(|x| x as u8);
+    let c_terminal = t.opt(|t| t.bool())?;
+    let semi = t.opt(|t| t.bool())?;
+    let max = t.usize()?;
+    let lo = t.f32()?;
+    let hi = t.f32()?;
+    let vars = t.list(|t| {
+        let k = t.string()?;
+        let ms = t.list(|t| t.f32())?;
+        Some((k, ms))
+    })?;
+    let statics = t.list(|t| {
+        let k = t.string()?;
+        let m = t.f32()?;
+        Some((k, m))
+    })?;
+    let text = t.string()?;
+    Some(Req { tag, gen, enz: Enz { mc, min_len, max_len, cleave, restrict, c_terminal, semi }, max, lo, hi, vars, statics, text })
+}
+
+fn enzyme_builder(e: &Enz) -> EnzymeBuilder {
+    EnzymeBuilder {
+        missed_cleavages: e.mc,
+        min_len: e.min_len,
+        max_len: e.max_len,
+        cleave_at: e.cleave.clone(),
+        restrict: e.restrict.map(|c| c as char),
+        c_terminal: e.c_terminal,
+        semi_enzymatic: e.semi,
+    }
+}
+
+/// the real code: `Builder::make_parameters`, `Fasta::parse`, `Parameters::build`
+fn run_db(r: &Req) -> (Vec<Peptide>, String, bool) {
+    let builder = Builder {
+        enzyme: Some(enzyme_builder(&r.enz)),
+        peptide_min_mass: Some(r.lo),
+        peptide_max_mass: Some(r.hi),
+        static_mods: Some(r.statics.iter().cloned().collect()),
+        variable_mods: Some(r.vars.iter().cloned().collect()),
+        max_variable_mods: Some(r.max),
+        decoy_tag: Some(r.tag.clone()),
+        generate_decoys: Some(r.gen),
+        fasta: Some("none".into()),
+        ..Default::default()
+    };
+    let params = builder.make_parameters();
+    let fasta = Fasta::parse(r.text.clone(), params.decoy_tag.clone(), params.generate_decoys);
+    let db = params.build(fasta);
+    (db.peptides, db.decoy_tag, db.generate_decoys)
+}
+
+fn write_entry(o: &mut Out, p: &Peptide) {
+    o.bytes(&p.sequence).b(p.decoy).n(p.missed_cleavages).f32(p.monoisotopic);
+    match p.nterm {
+        None => o.n(0),
+        Some(x) => o.n(1).f32(x),
+    };
+    o.n(p.modifications.len());
+    for m in &p.modifications {
+        o.f32(*m);
+    }
+    match p.cterm {
+        None => o.n(0),
+        Some(x) => o.n(1).f32(x),
+    };
+    o.n(p.proteins.len());
+    for s in &p.proteins {
+        o.s(s);
+    }
+}
+
+fn read_entry(t: &mut Toks) -> Option<Peptide> {
+    let sequence = t.bytes()?;
+    let decoy = t.bool()?;
+    let mc = t.usize()? as u8;
+    let mono = t.f32()?;
+    let nterm = t.opt(|t| t.f32())?;
+    let mods = t.list(|t| t.f32())?;
+    let cterm = t.opt(|t| t.f32())?;
+    let proteins = t.list(|t| t.string())?;
+    Some(Peptide {
+        decoy,
+        sequence: Arc::from(sequence.into_boxed_slice()),
+        modifications: mods,
+        nterm,
+        cterm,
+        monoisotopic: mono,
+        missed_cleavages: mc,
+        semi_enzymatic: false,
+        position: Position::Internal,
+        proteins: proteins.into_iter().map(|s| Arc::from(s.as_str())).collect(),
+    })
+}
+
+pub fn exec(op: &str, t: &mut Toks) -> Option<String> {
+    let mut o = Out::new();
+    match op {
+        "db7" => {
+            let r = read_req(t)?;
+            let (peps, tag, gen) = run_db(&r);
+            let mut recs: Vec<String> = peps
+                .iter()
+                .map(|p| {
+                    let mut e = Out::new();
+                    write_entry(&mut e, p);
+                    e.s(&p.proteins(&tag, gen));
+                    e.finish()
+                })
+                .collect();
+            recs.sort();
+            o.raw("ok").n(recs.len());
+            for r in &recs {
+                o.raw(r);
+            }
+        }
+        "rev7" => {
+            let tag = t.string()?;
+            let gen = t.bool()?;
+            let p = read_entry(t)?;
+            let r = p.reverse();
+            let rr = r.reverse();
+            o.raw("ok");
+            write_entry(&mut o, &r);
+            o.b(rr == p).n(p.label()).n(r.label());
+            o.s(&p.proteins(&tag, gen)).s(&r.proteins(&tag, gen));
+        }
+        _ => return None,
+    }
+    Some(o.finish())
+}
+
+// ------------------------------------------------------------------------------------------ generator
+
+const BODY: &[u8] = b"AGSMCILPD";
+
+fn rand_body(rng: &mut Rng, lo: usize, span: usize) -> Vec<u8> {
+    let len = lo + rng.below(span);
+    let alpha: &[u8] = match rng.below(4) {
+        0 => b"AG",
+        1 => b"ASMC",
+        2 => b"IL",
+        _ => BODY,
+    };
+    (0..len).map(|_| *rng.pick(alpha)).collect()
+}
+
+fn mirror(s: &[u8]) -> Vec<u8> {
+    let mut v = s.to_vec();
+    let n = v.len();
+    if n > 3 {
+        v[1..n - 1].reverse();
+    }
+    v
+}
+
+/// a pool of tryptic-looking peptides (closed by K or R) with the planted shapes
+fn peptide_pool(rng: &mut Rng, size: usize) -> Vec<Vec<u8>> {
+    let mut pool: Vec<Vec<u8>> = Vec::new();
+    while pool.len() < size {
+        let close = *rng.pick(b"KKR");
+        match rng.below(10) {
+            0 => {
+                // length 1..3
+                let mut p = rand_body(rng, 0, 3);
+                p.push(close);
+                pool.push(p);
+            }
+            1 | 2 => {
+                // palindromic middle
+                let first = *rng.pick(BODY);
+                let half = rand_body(rng, 1, 3);
+                let mut p = vec![first];
+                p.extend(&half);
+                if rng.chance(1, 2) {
+                    p.push(*rng.pick(BODY));
+                }
+                p.extend(half.iter().rev());
+                p.push(close);
+                pool.push(p);
+            }
+            3 | 4 => {
+                // mirror pair: both X and mirror(X) are targets
+                let mut p = rand_body(rng, 3, 5);
+                p.push(close);
+                pool.push(mirror(&p));
+                pool.push(p);
+            }
+            5 => {
+                // I/L swapped pair
+                let mut p = rand_body(rng, 2, 4);
+                let i = rng.below(p.len());
+                p[i] = b'I';
+                let mut q = p.clone();
+                q[i] = b'L';
+                p.push(close);
+                q.push(close);
+                pool.push(p);
+                pool.push(q);
+            }
+            _ => {
+                let mut p = rand_body(rng, 2, 9);
+                p.push(close);
+                pool.push(p);
+            }
+        }
+    }
+    pool
+}
+
+struct Rec {
+    acc: String,
+    seq: Vec<u8>,
+}
+
+fn render_fasta(rng: &mut Rng, recs: &[Rec]) -> String {
+    let mut s = String::new();
+    for r in recs {
+        s.push('>');
+        s.push_str(&r.acc);
+        if rng.chance(1, 3) {
+            s.push_str(" some description");
+        }
+        s.push('\n');
+        let width = *rng.pick(&[60usize, 7, 1000]);
+        for chunk in r.seq.chunks(width) {
+            s.push_str(std::str::from_utf8(chunk).unwrap());
+            s.push('\n');
+        }
+        if rng.chance(1, 8) {
+            s.push('\n');
+        }
+    }
+    s
+}
+
+const MASSES: &[f32] = &[15.9949, 42.010565, 79.96633, 57.021465, 229.16293, 0.984016, 14.01565, 1.0, -17.026548];
+
+fn rand_vars(rng: &mut Rng) -> VarMods {
+    let keys = ["M", "S", "C", "K", "A", "I", "^", "$", "[", "]", "^A", "$K", "[M", "]K", "G", "^G"];
+    let n = *rng.pick(&[0usize, 1, 1, 2, 2, 3]);
+    let mut v: VarMods = Vec::new();
+    for _ in 0..n {
+        let k = rng.pick(&keys).to_string();
+        if v.iter().any(|(k2, _)| *k2 == k) {
+            continue;
+        }
+        let mut ms = vec![*rng.pick(MASSES)];
+        if rng.chance(1, 5) {
+            ms.push(*rng.pick(MASSES));
+        }
+        v.push((k, ms));
+    }
+    v
+}
+
+/// structurally non-overlapping static modifications: distinct residues, at most one N-terminal and one
+/// C-terminal key (without residue)
+fn rand_statics(rng: &mut Rng) -> StaticMods {
+    let mut v: StaticMods = Vec::new();
+    if rng.chance(1, 2) {
+        v.push(("C".into(), 57.021465));
+    }
+    if rng.chance(1, 5) {
+        v.push(("K".into(), 229.16293));
+    }
+    if rng.chance(1, 6) {
+        v.push((rng.pick(&["^", "["]).to_string(), *rng.pick(&[229.16293f32, 42.010565])));
+    }
+    if rng.chance(1, 8) {
+        v.push((rng.pick(&["$", "]"]).to_string(), *rng.pick(&[0.984016f32, 14.01565])));
+    }
+    v
+}
+
+fn rand_enzyme(rng: &mut Rng) -> Enz {
+    let min_len = Some(1 + rng.below(5));
+    let max_len = Some(4 + rng.below(27));
+    let mc = Some(rng.below(3) as u8);
+    match rng.below(12) {
+        0 => Enz { mc, min_len, max_len, cleave: Some("KR".into()), restrict: None, c_terminal: Some(true), semi: Some(false) },
+        1 => Enz { mc, min_len, max_len, cleave: Some("K".into()), restrict: None, c_terminal: Some(true), semi: Some(false) },
+        2 => Enz { mc, min_len, max_len, cleave: Some("D".into()), restrict: None, c_terminal: Some(false), semi: Some(false) },
+        3 => Enz { mc, min_len, max_len: Some(1000), cleave: Some("$".into()), restrict: None, c_terminal: Some(true), semi: Some(false) },
+        4 => Enz { mc: Some(0), min_len: Some(2 + rng.below(3)), max_len: Some(5 + rng.below(2)), cleave: Some("".into()), restrict: None, c_terminal: Some(true), semi: Some(false) },
+        5 | 6 => Enz { mc: Some(rng.below(2) as u8), min_len: Some(2 + rng.below(3)), max_len, cleave: Some("KR".into()), restrict: Some(b'P'), c_terminal: Some(true), semi: Some(true) },
+        7 => Enz { mc: None, min_len: None, max_len: None, cleave: None, restrict: Some(b'P'), c_terminal: None, semi: None },
+        _ => Enz { mc, min_len, max_len, cleave: Some("KR".into()), restrict: Some(b'P'), c_terminal: Some(true), semi: Some(false) },
+    }
+}
+
+fn tagged_acc(rng: &mut Rng, tag: &str, base: &str) -> String {
+    if rng.chance(1, 6) {
+        format!("sp|{}{}", tag, base)
+    } else {
+        format!("{}{}", tag, base)
+    }
+}
+
+fn rand_case(rng: &mut Rng, nprot_max: usize, pool_size: usize) -> Req {
+    let pool = peptide_pool(rng, pool_size);
+    let tag = rng.pick(&["rev_", "rev_", "DECOY_", "XX"]).to_string();
+    let gen = rng.chance(1, 2);
+    let nprot = 1 + rng.below(nprot_max);
+    let mut recs: Vec<Rec> = Vec::new();
+    for i in 0..nprot {
+        let npep = 1 + rng.below(6);
+        let mut seq: Vec<u8> = Vec::new();
+        if rng.chance(1, 4) {
+            seq.push(b'M');
+        }
+        for _ in 0..npep {
+            seq.extend(rng.pick(&pool));
+        }
+        if rng.chance(1, 3) {
+            // a C-terminal peptide that does not end in K/R
+            seq.extend(rand_body(rng, 1, 6));
+        }
+        let acc = if rng.chance(1, 15) && i > 0 { recs[rng.below(i)].acc.clone() } else { format!("P{}", i + 1) };
+        recs.push(Rec { acc, seq });
+    }
+    // tagged records
+    let ntag = if rng.chance(if gen { 1 } else { 5 }, 6) { 1 + rng.below(3) } else { 0 };
+    let ntargets = recs.len();
+    for j in 0..ntag {
+        let src = rng.below(ntargets);
+        let seq: Vec<u8> = match rng.below(4) {
+            0 => recs[src].seq.clone(), // copy of a target protein: every peptide collides
+            1 => {
+                // whole protein reversed (the classical decoy database)
+                let mut s = recs[src].seq.clone();
+                s.reverse();
+                s
+            }
+            2 => {
+                // peptide-wise mirror image + shared peptides
+                let mut s = Vec::new();
+                for _ in 0..(1 + rng.below(5)) {
+                    let p = rng.pick(&pool);
+                    if rng.chance(2, 3) {
+                        s.extend(mirror(p));
+                    } else {
+                        s.extend(p);
+                    }
+                }
+                s
+            }
+            _ => {
+                let mut s = Vec::new();
+                for _ in 0..(1 + rng.below(4)) {
+                    let mut p = rand_body(rng, 2, 8);
+                    p.push(b'K');
+                    s.extend(p);
+                }
+                s
+            }
+        };
+        let base = if rng.chance(1, 2) { recs[src].acc.clone() } else { format!("D{}", j + 1) };
+        let acc = tagged_acc(rng, &tag, &base);
+        let at = rng.below(recs.len() + 1);
+        recs.insert(at, Rec { acc, seq });
+    }
+    let text = render_fasta(rng, &recs);
+    let (lo, hi) = match rng.below(6) {
+        0 => (300.0, 900.0),
+        1 => (500.0, 5000.0),
+        _ => (0.0, 1.0e6),
+    };
+    Req {
+        tag,
+        gen,
+        enz: rand_enzyme(rng),
+        max: 1 + rng.below(3),
+        lo,
+        hi,
+        vars: rand_vars(rng),
+        statics: rand_statics(rng),
+        text,
+    }
+}
+
+/// does the real digest produce anything (else `Parameters::build` panics: outside the statement)?
+fn has_digest(r: &Req) -> bool {
+    let r = r.clone();
+    std::panic::catch_unwind(move || {
+        let fasta = Fasta::parse(r.text.clone(), r.tag.clone(), r.gen);
+        let enzyme = enzyme_builder(&r.enz).into();
+        !fasta.digest(&enzyme).is_empty()
+    })
+    .unwrap_or(false)
+}
+
+fn emit_db(emit: &mut dyn FnMut(Case), r: &Req, tag: &'static str) -> bool {
+    if !has_digest(r) {
+        return false;
+    }
+    let r2 = r.clone();
+    let peps = match std::panic::catch_unwind(move || run_db(&r2).0) {
+        Ok(p) => p,
+        Err(_) => return false,
+    };
+    if peps.len() > 4000 {
+        return false;
+    }
+    let ndecoy = peps.iter().filter(|p| p.decoy).count();
+    let ntarget = peps.len() - ndecoy;
+    let modified = peps.iter().any(|p| p.decoy && p.modifications.iter().any(|m| *m != 0.0));
+    let shared = peps.iter().any(|p| p.proteins.len() > 1);
+    let short = peps.iter().any(|p| p.sequence.len() <= 3);
+    emit(Case::new(write_req(r))
+        .tag(tag)
+        .tag(if r.gen { "db:generate_decoys" } else { "db:fasta_decoys" })
+        .tag_if(r.gen && ndecoy < ntarget, "db:some-decoy-dropped")
+        .tag_if(r.gen && ndecoy == ntarget && ntarget > 0, "db:every-target-has-decoy")
+        .tag_if(modified, "db:modified-decoy")
+        .tag_if(shared, "db:shared-peptide")
+        .tag_if(short, "db:length<=3")
+        .tag_if(r.enz.semi == Some(true), "db:semi")
+        .tag_if(peps.len() > 20, "db:>20-entries(quicksort)")
+        .tag_if(peps.is_empty(), "db:empty")
+        .nontrivial(ndecoy > 0 && ntarget > 0));
+    true
+}
+
+fn tryptic() -> Enz {
+    Enz { mc: Some(0), min_len: Some(1), max_len: Some(50), cleave: Some("KR".into()), restrict: Some(b'P'), c_terminal: Some(true), semi: Some(false) }
+}
+
+fn directed(emit: &mut dyn FnMut(Case)) {
+    let base = |text: &str, gen: bool| Req {
+        tag: "rev_".into(),
+        gen,
+        enz: tryptic(),
+        max: 2,
+        lo: 0.0,
+        hi: 1.0e6,
+        vars: vec![],
+        statics: vec![],
+        text: text.into(),
+    };
+    let vm = |v: &[(&str, &[f32])]| -> VarMods { v.iter().map(|(k, m)| (k.to_string(), m.to_vec())).collect() };
+    // palindrome, length <= 3, mirror pair, ordinary peptide
+    let t1 = ">P1\nAGSGKAKGKAMSGKAGSMKMSGAKPEPTIDEK\n>P2\nAGSMKPEPTIDEKAK\nILMK\n>P3\nLIMKAK\n";
+    for gen in [true, false] {
+        emit_db(emit, &base(t1, gen), "db:directed");
+        let mut r = base(t1, gen);
+        r.vars = vm(&[("M", &[15.9949]), ("S", &[79.96633]), ("^", &[42.010565])]);
+        r.statics = vec![("K".into(), 229.16293)];
+        emit_db(emit, &r, "db:directed");
+        let mut r = base(t1, gen);
+        r.enz.mc = Some(2);
+        r.vars = vm(&[("[", &[42.010565]), ("]", &[0.984016]), ("$", &[1.0])]);
+        emit_db(emit, &r, "db:directed");
+        let mut r = base(t1, gen);
+        r.enz.semi = Some(true);
+        r.enz.min_len = Some(3);
+        r.enz.mc = Some(1);
+        emit_db(emit, &r, "db:directed");
+    }
+    // FASTA decoys: reversed protein, copy of a target, decoy sharing a peptide with a target, tag as infix
+    let t2 = ">P1\nAGSMKPEPTIDEKAAK\n>rev_P1\nKAAKEDITPEPKMSGA\n>rev_P2\nAGSMKLLLK\n>sp|rev_P3\nCCCK\n>P3 x\nCCCKAMSGK\n";
+    for gen in [true, false] {
+        emit_db(emit, &base(t2, gen), "db:directed");
+        let mut r = base(t2, gen);
+        r.vars = vm(&[("M", &[15.9949])]);
+        emit_db(emit, &r, "db:directed");
+        let mut r = base(t2, gen);
+        r.tag = "P".into(); // every accession carries the tag
+        emit_db(emit, &r, "db:directed");
+        let mut r = base(t2, gen);
+        r.tag = "DECOY_".into(); // nothing carries the tag
+        emit_db(emit, &r, "db:directed");
+    }
+    // a peptide whose mirror image only exists as a missed-cleavage product
+    let t3 = ">P1\nASGKMK\n>P2\nAGSKMK\n>P3\nAKGSMK\n";
+    for mc in [0u8, 1, 2] {
+        let mut r = base(t3, true);
+        r.enz.mc = Some(mc);
+        emit_db(emit, &r, "db:directed");
+    }
+    // the same form from two positions with different protein-terminal eligibility
+    let t4 = ">P1\nAGSMKAGSMK\n>P2\nCCKAGSMK\n";
+    let mut r = base(t4, true);
+    r.vars = vm(&[("[", &[42.010565]), ("M", &[15.9949])]);
+    emit_db(emit, &r, "db:directed");
+    // whole protein as one peptide; non-specific
+    let mut r = base(">P1\nAGSMCILK\n>P2\nALICMSGK\n>P3\nAGK\n", true);
+    r.enz.cleave = Some("$".into());
+    emit_db(emit, &r, "db:directed");
+    let mut r = base(">P1\nAGSMCA\n", true);
+    r.enz.cleave = Some("".into());
+    r.enz.min_len = Some(2);
+    r.enz.max_len = Some(5);
+    emit_db(emit, &r, "db:directed");
+    // invalid residues are skipped; mass window cutting the list
+    let mut r = base(">P1\nAGSMKABZKXXKAGGSK\n", true);
+    r.lo = 300.0;
+    r.hi = 400.0;
+    emit_db(emit, &r, "db:directed");
+}
+
+fn rev_request(tag: &str, gen: bool, p: &Peptide) -> String {
+    let mut o = Out::new();
+    o.raw("rev7").s(tag).b(gen);
+    write_entry(&mut o, p);
+    o.finish()
+}
+
+fn gen_rev(rng: &mut Rng, tier: Tier, emit: &mut dyn FnMut(Case)) {
+    let mk = |seq: Vec<u8>, mods: Vec<f32>, nterm: Option<f32>, cterm: Option<f32>, decoy: bool, prots: Vec<String>| Peptide {
+        decoy,
+        sequence: Arc::from(seq.into_boxed_slice()),
+        modifications: mods,
+        nterm,
+        cterm,
+        monoisotopic: 1234.5,
+        missed_cleavages: 1,
+        semi_enzymatic: false,
+        position: Position::Internal,
+        proteins: prots.into_iter().map(|s| Arc::from(s.as_str())).collect(),
+    };
+    // every length 0..=8 with all-distinct residues and modification slots
+    for len in 0..=8usize {
+        for decoy in [false, true] {
+            let seq: Vec<u8> = b"ACDEFGHI"[..len].to_vec();
+            let mods: Vec<f32> = (0..len).map(|i| (i + 1) as f32).collect();
+            let p = mk(seq, mods, Some(42.0), Some(-1.0), decoy, vec!["P1".into(), "P2".into()]);
+            for gen in [false, true] {
+                emit(Case::new(rev_request("rev_", gen, &p)).tag("rev:every-length").nontrivial(len >= 4));
+            }
+        }
+    }
+    let n = if tier == Tier::Quick { 400 } else { 20000 };
+    for _ in 0..n {
+        let len = rng.below(13);
+        let seq: Vec<u8> = (0..len).map(|_| *rng.pick(b"ACDEFGHIKLMNPQRSTVWY")).collect();
+        let mods: Vec<f32> = (0..len)
+            .map(|_| if rng.chance(1, 3) { *rng.pick(MASSES) } else { 0.0 })
+            .collect();
+        let nterm = if rng.chance(1, 3) { Some(*rng.pick(MASSES)) } else { None };
+        let cterm = if rng.chance(1, 4) { Some(*rng.pick(MASSES)) } else { None };
+        let np = rng.below(4);
+        let prots: Vec<String> = (0..np).map(|i| format!("{}{}", rng.pick(&["P", "sp|Q", "rev_X"]), i)).collect();
+        let mut p = mk(seq, mods, nterm, cterm, rng.chance(1, 2), prots);
+        p.monoisotopic = (rng.unit() * 3000.0) as f32;
+        p.missed_cleavages = rng.below(4) as u8;
+        let tag = rng.pick(&["rev_", "DECOY_", ""]).to_string();
+        emit(Case::new(rev_request(&tag, rng.chance(1, 2), &p))
+            .tag("rev:random")
+            .tag_if(p.modifications.iter().any(|m| *m != 0.0), "rev:modified")
+            .nontrivial(len >= 4));
+    }
+}
+
+pub fn gen(rng: &mut Rng, tier: Tier, emit: &mut dyn FnMut(Case)) {
+    directed(emit);
+    gen_rev(rng, tier, emit);
+    let (n, nprot_max) = if tier == Tier::Quick { (250, 6) } else { (6000, 12) };
+    let mut done = 0;
+    let mut attempts = 0;
+    while done < n && attempts < 10 * n {
+        attempts += 1;
+        let pool_size = 3 + rng.below(10);
+        let r = rand_case(rng, nprot_max, pool_size);
+        if emit_db(emit, &r, "db:random") {
+            done += 1;
+        }
+    }
+    // larger databases: the quick-sort regime of par_sort_unstable_by, many cross-position duplicates
+    let nbig = if tier == Tier::Quick { 6 } else { 150 };
+    let mut done = 0;
+    let mut attempts = 0;
+    while done < nbig && attempts < 10 * nbig {
+        attempts += 1;
+        let pool_size = 6 + rng.below(8);
+        let r = rand_case(rng, if tier == Tier::Quick { 25 } else { 60 }, pool_size);
+        if emit_db(emit, &r, "db:large") {
+            done += 1;
+        }
+    }
 }
